@@ -12,6 +12,20 @@ Oracle = (i) point: activation.activity(isotope, mass, env, exposure, rests)[row
          exposure t1 < t2 => A(t2) >= A(t1) exp(-a (t2 - t1)) (b rows: A(t2) >= A(t1));
          (iv) Sample.calculate_activation of a natural element / compound == the isotope route with
          mass x mass fraction x abundance/100 (default, NIST and IAEA abundance).
+         (v) histories of caller-owned objects: ONE ActivationEnvironment is used, handed on (the same
+         object / copy.copy / copy.deepcopy), updated in place by the caller and used again - every path of
+         environment settings up to the depth bound x used-before-hand-over {yes, no} x hand-over, for every
+         isotope of the table; one Sample recalculated in another environment with other rest times; one
+         environment shared by two Samples; one Formula object handed to two Samples.  The last result must
+         equal the one of fresh objects built with the final values (a second route through the same
+         arithmetic, 1e-12), and the arguments (environment attributes, rest-time list, Formula) come back
+         unaltered.  A deviation is named after the attribute whose OLD value explains it
+         ("reused-environment-uses-stale-Cd_ratio");
+         (vi) the sample alphabet contains ions: for every element with activation data the ion of the natural
+         element and the ion of its lightest activating isotope, and compounds that hold one element in two
+         charge states / as ion and neutral atom / as isotope ion and natural ion.  The charge does not change
+         the nucleus; the ion's own mass enters the mass fraction.  An exception is attributed to the ions
+         ("sample-with-ion-of-natural-element-raises") only if the same material without charges computes.
 Every deviation is classified by CAUSE with the reference's condition number kappa of the documented
 closed form: |error| <= 64 eps kappa => "<family>-cancellation" ("2n-capture-rate-cancellation" when
 only the spreadsheet's (c + lamP) - lamP subtraction explains it), otherwise "<family>-value-wrong"
@@ -94,14 +108,25 @@ META = dict(
           "(fluence x exposure x Cd ratio x fast ratio x mass x rest time, plus per-row exposures bracketing "
           "the 1e-10 small-argument threshold) is executed through activation.activity() on the real isotope "
           "and compared with the 80-digit solution of the row's chain; a point is non-trivial when the row is "
-          "expected in the result and its exact activity is above 1e-290 uCi"),
+          "expected in the result and its exact activity is above 1e-290 uCi; every natural element with "
+          "activation data, its ions, and compounds (isotope + natural element, several charge states of one "
+          "element) go through Sample.calculate_activation against the isotope route; every history of one "
+          "environment object (path of settings x used-before-hand-over x same object / copy / deepcopy) per "
+          "isotope and every ordered pair of settings per sample (environment shared by two Samples, one Sample "
+          "recalculated) is compared with fresh objects - non-trivial when the last change of settings changes "
+          "the result"),
     bound=dict(
         quick="513 rows x 3024 environments (7 fluences x 6 exposures x Cd {0,1,70} x fast {0,50} x 3 masses "
-              "x 4 rest times) + threshold exposures; 82 natural elements + 3 compounds x 16 environments x 3 "
-              "abundance modes (default, NIST, IAEA)",
+              "x 4 rest times) + threshold exposures; (82 natural elements + 15 compounds, 7 of them with ions, + "
+              "the natural-element ion and one isotope ion of each of the 80 elements that have charge states) x "
+              "16 environments x 3 abundance modes (default, NIST, IAEA); per isotope (224) all 792 histories of one "
+              "environment object: ordered pairs of 12 settings (fluence {1e5,1e12} x Cd {0,1,70} x fast {0,50}) x "
+              "used-before-hand-over {yes,no} x {same object, copy, deepcopy}; per sample all ordered pairs of 4 "
+              "settings x {environment shared by two Samples, Sample recalculated} + a reused Formula object",
         thorough="513 rows x 8640 environments (15 fluences 1e2..1e16 x 8 exposures 1e-3..1e4 x 3 x 2 x 3 x 4; "
-                 "contains the quick grid) + threshold exposures; 82 natural elements + 3 "
-                 "compounds x 120 environments x 3 abundance modes"),
+                 "contains the quick grid) + threshold exposures; the same samples x 120 environments x 3 abundance "
+                 "modes; per isotope the quick histories + all 2904 paths of three settings (used, same object / "
+                 "copy); per sample all ordered pairs of 6 settings"),
     assumptions=[
         "the documented chain of a row is the one derived in mc/ref/activation.py from the activation.py "
         "docstring and the spreadsheet column comments (cross sections, fluxes and half-lives as tabulated)",
@@ -112,6 +137,13 @@ META = dict(
         "nothing is claimed for real-valued arguments off the grid; Cd ratios strictly between 0 and 1 and "
         "the D/T alias isotopes (no activation record of their own) are outside the alphabet",
         "element masses used for compound mass fractions are read from the library (C06)",
+        "an ion activates like the neutral atom (the charge does not change the nucleus); its mass fraction in a "
+        "compound uses the ion's own mass as the library serves it",
+        "the documented public attributes of an ActivationEnvironment are fluence, Cd_ratio and fast_ratio; a "
+        "caller may assign them at any time and may copy an environment with the copy module; private "
+        "attributes an implementation keeps on the object are not looked at",
+        "results of fresh and of reused objects run through the same arithmetic and are compared to 1e-12 "
+        "relative; histories whose fresh route raises or is not finite are not judged (the row sweep reports them)",
     ],
     level_text=("bounded-exhaustive execution of the real activation code: every table row at every grid point "
                 "agrees with an independent exact chain solution; no claim between grid points"),
@@ -627,6 +659,328 @@ def sample_check(acc, L, name, spec, fluence, cd, fr, exposure, which, mass=SAMP
                 return
 
 
+# --------------------------------------------------------------------------------------- histories
+# One environment object lives through several calculations (reused configuration objects): it is used,
+# handed on (the same object, copy.copy, copy.deepcopy), updated IN PLACE by the caller, used again.  The
+# result of the last calculation must be the one of a fresh environment constructed with the final values
+# (the fresh results are the points the row sweep compares with the exact reference).
+def hist_settings(tier):
+    return [(f, cd, fr) for f in HIST[tier]["fluence"] for cd in CD for fr in FAST]
+
+
+def set_env(env, old, new):
+    """The caller updates the environment in place: only the attributes that change are assigned."""
+    for name, a, b in zip(ENV_ATTRS, old, new):
+        if a != b:
+            setattr(env, name, b)
+
+
+def transfer_env(env, how):
+    return env if how == "same" else (copy.copy(env) if how == "copy" else copy.deepcopy(env))
+
+
+def finite_values(d):
+    for vals in d.values():
+        for v in vals:
+            v = fnum(v)
+            if v is None or not math.isfinite(v):
+                return False
+    return True
+
+
+def same_values(a, b, n=None):
+    """Two {key: [floats]} results of the same arithmetic (first n entries of each list)."""
+    if a is None or b is None or set(a) != set(b):
+        return False
+    for k, va in a.items():
+        va, vb = list(va)[:n], list(b[k])[:n]
+        if len(va) != len(vb):
+            return False
+        for x, y in zip(va, vb):
+            x, y = fnum(x), fnum(y)
+            if x is None or y is None or not (x == y or abs(x - y) <= SAME * max(abs(x), abs(y)) + TINY):
+                return False
+    return True
+
+
+def stale_attributes(equal_to_fresh, old, new):
+    """Cause probe (naming only): the smallest set of changed attributes whose OLD values explain the result."""
+    changed = [i for i in range(len(ENV_ATTRS)) if old[i] != new[i]]
+    for r in range(1, len(changed) + 1):
+        for T in itertools.combinations(changed, r):
+            h = list(new)
+            for i in T:
+                h[i] = old[i]
+            if equal_to_fresh(tuple(h)):
+                return "+".join(ENV_ATTRS[i] for i in T)
+    return None
+
+
+def env_histories(tier, settings):
+    """(settings path, environment used before each hand-over?, hand-over) - exhaustive within the depth."""
+    out = []
+    for s0 in settings:
+        for s1 in settings:
+            if s1 == s0:
+                continue
+            for used in (True, False):
+                for how in TRANSFERS:
+                    out.append(((s0, s1), used, how))
+    if HIST[tier]["depth"] >= 3:
+        for s0 in settings:
+            for s1 in settings:
+                for s2 in settings:
+                    if s1 == s0 or s2 == s1:
+                        continue
+                    for how in ("same", "copy"):
+                        out.append(((s0, s1, s2), True, how))
+    return out
+
+
+def env_history_snippet(Z, A, path, used, how):
+    L = ["import copy", "import periodictable as pt", "from periodictable import activation",
+         "iso = %s" % iso_expr(Z, A),
+         "def values(env):",
+         "    res = activation.activity(iso, %r, env, %r, %r)" % (HIST_MASS, HIST_EXPOSURE, list(HIST_RESTS)),
+         "    return [(a.daughter, a.reaction, v) for a, v in res.items()]",
+         "env = activation.ActivationEnvironment(fluence=%r, Cd_ratio=%r, fast_ratio=%r)" % tuple(path[0])]
+    for old, new in zip(path, path[1:]):
+        if used:
+            L.append("values(env)      # the environment is used")
+        if how != "same":
+            L.append("env = copy.%s(env)" % how)
+        for name, a, b in zip(ENV_ATTRS, old, new):
+            if a != b:
+                L.append("env.%s = %r" % (name, b))
+    L += ["got = values(env)",
+          "fresh = values(activation.ActivationEnvironment(fluence=%r, Cd_ratio=%r, fast_ratio=%r))" % tuple(path[-1]),
+          "print(got); print(fresh)", "assert got == fresh"]
+    return "\n".join(L) + "\n"
+
+
+def env_history_check(acc, L, key, tier, only=None):
+    """All histories of one environment object for one isotope."""
+    Z, A = key
+    iso = L.isotope(Z, A)
+    lib_rows = getattr(iso, "neutron_activation", None)
+    if lib_rows is None:
+        return
+    settings = hist_settings(tier)
+    rests = list(HIST_RESTS)
+
+    def calc(env, rl):
+        acc.evaluations += 1
+        res = L.act.activity(iso, HIST_MASS, env, HIST_EXPOSURE, rl)
+        return by_position(res, lib_rows)[0]
+
+    fresh = {}
+    for st in settings:
+        try:
+            v = calc(L.env(*st), list(rests))
+            fresh[st] = v if finite_values(v) else None
+        except Exception:   # noqa - reported by the row sweep; nothing to compare a history with
+            fresh[st] = None
+    for path, used, how in (env_histories(tier, settings) if only is None else [only]):
+        path = tuple(tuple(st) for st in path)
+        if any(fresh.get(st) is None for st in path):
+            acc.count("env_histories_skipped_fresh_route_fails")
+            continue
+        variant = ("reused" if how == "same" else "copied") + ("" if used else "-unused")
+        case = dict(kind="env-history", Z=Z, A=A, isotope=L.per_iso[key][0].isotope, path=[list(st) for st in path],
+                    used=used, transfer=how, tier=tier)
+        snippet = env_history_snippet(Z, A, path, used, how)
+        acc.states += 1
+        acc.traces += 1
+        rl = list(rests)            # ONE list object for all calls of the history: it must come back unaltered
+        env = L.env(*path[0])
+        original = None
+        try:
+            for old, new in zip(path, path[1:]):
+                acc.transitions += 1
+                if used:
+                    calc(env, rl)
+                original = (env, old)
+                env = transfer_env(env, how)
+                set_env(env, old, new)
+            got = calc(env, rl)
+        except Exception as e:      # noqa
+            acc.violation("%s-environment-raises-%s" % (variant, type(e).__name__), case,
+                          expected="the activities of a fresh environment", observed=exc_text(e), standalone=snippet)
+            continue
+        last, prev = path[-1], path[-2]
+        if not same_values(fresh[last], fresh[prev]):
+            acc.nontrivial += 1
+        if same_values(got, fresh[last]):
+            acc.outcome("env-history:%s:equal-to-fresh" % variant)
+        else:
+            stale = stale_attributes(lambda h: same_values(got, fresh.get(h)), prev, last)
+            if stale is None and len(path) > 2:
+                stale = stale_attributes(lambda h: same_values(got, fresh.get(h)), path[0], last)
+            sig = ("%s-environment-uses-stale-%s" % (variant, stale) if stale
+                   else "%s-environment-differs-from-fresh-environment" % variant)
+            acc.outcome("env-history:%s:VIOLATION" % variant)
+            acc.violation(sig, case, expected="as with a fresh environment %r: %r" % (dict(zip(ENV_ATTRS, last)),
+                          fresh[last]), observed=repr(got), standalone=snippet)
+            continue
+        if tuple(getattr(env, a, None) for a in ENV_ATTRS) != last:
+            acc.violation("environment-argument-altered-by-activity", case, expected=repr(last),
+                          observed=repr(tuple(getattr(env, a, None) for a in ENV_ATTRS)), standalone=snippet)
+        if rl != rests:
+            acc.violation("rest-times-argument-altered-by-activity", case, expected=repr(rests), observed=repr(rl),
+                          standalone=snippet)
+        if how != "same" and original is not None:
+            # the environment the copy was taken from still is what it was
+            o_env, o_st = original
+            try:
+                back = calc(o_env, rl)
+            except Exception as e:  # noqa
+                back = exc_text(e)
+            if not (isinstance(back, dict) and same_values(back, fresh[o_st])):
+                acc.violation("update-of-copied-environment-leaks-into-the-original", case,
+                              expected=repr(fresh[o_st]), observed=repr(back), standalone=snippet)
+
+
+def sample_values(sample):
+    return dict((k, [fnum(x) for x in v]) for k, v in sample.activity.items())
+
+
+def describe(vals):
+    return sorted((getattr(k, "isotope", "?"), getattr(k, "daughter", "?"), getattr(k, "reaction", "?"), v)
+                  for k, v in vals.items())
+
+
+def sample_history_snippet(name, mass, mode, s1, s2):
+    L = ["import periodictable as pt", "from periodictable import activation",
+         "E = activation.ActivationEnvironment",
+         "show = lambda s: sorted((a.isotope, a.daughter, a.reaction, v) for a, v in s.activity.items())",
+         "fresh = activation.Sample(%r, %r)" % (name, mass),
+         "fresh.calculate_activation(E(fluence=%r, Cd_ratio=%r, fast_ratio=%r), exposure=%r, rest_times=%r)"
+         % (s2[0], s2[1], s2[2], HIST_EXPOSURE, list(REST[:2] if mode == "sample-recalculated" else REST))]
+    if mode == "environment-reused":
+        L += ["env = E(fluence=%r, Cd_ratio=%r, fast_ratio=%r)" % tuple(s1),
+              "a = activation.Sample(%r, %r); a.calculate_activation(env, exposure=%r, rest_times=%r)"
+              % (name, mass, HIST_EXPOSURE, list(REST)), "before = show(a)"]
+        L += ["env.%s = %r" % (n, y) for n, x, y in zip(ENV_ATTRS, s1, s2) if x != y]
+        L += ["s = activation.Sample(%r, %r); s.calculate_activation(env, exposure=%r, rest_times=%r)"
+              % (name, mass, HIST_EXPOSURE, list(REST)), "assert show(a) == before"]
+    elif mode == "sample-recalculated":
+        L += ["s = activation.Sample(%r, %r)" % (name, mass),
+              "s.calculate_activation(E(fluence=%r, Cd_ratio=%r, fast_ratio=%r), exposure=%r, rest_times=%r)"
+              % (s1[0], s1[1], s1[2], 3 * HIST_EXPOSURE, list(REST)),
+              "s.calculate_activation(E(fluence=%r, Cd_ratio=%r, fast_ratio=%r), exposure=%r, rest_times=%r)"
+              % (s2[0], s2[1], s2[2], HIST_EXPOSURE, list(REST[:2]))]
+    else:
+        L += ["f = pt.formula(%r); before = (str(f), dict(f.atoms), f.density)" % name,
+              "for again in (1, 2):",
+              "    s = activation.Sample(f, %r)" % mass,
+              "    s.calculate_activation(E(fluence=%r, Cd_ratio=%r, fast_ratio=%r), exposure=%r, rest_times=%r)"
+              % (s2[0], s2[1], s2[2], HIST_EXPOSURE, list(REST)),
+              "    assert (str(f), dict(f.atoms), f.density) == before"]
+    L += ["print(show(s)); print(show(fresh))", "assert show(s) == show(fresh)"]
+    return "\n".join(L) + "\n"
+
+
+def sample_history_check(acc, L, name, spec, tier, only=None, mass=SAMPLE_MASS):
+    """Sample and environment objects that are used more than once (default abundance)."""
+    pt, act = L.pt, L.act
+    g = SAMPLE_HIST[tier]
+    settings = [(g["fluence"], cd, fr) for cd in g["cd"] for fr in g["fast"]]
+
+    def run(sample, env, exposure=HIST_EXPOSURE, rests=REST):
+        acc.evaluations += 1
+        sample.calculate_activation(env, exposure=exposure, rest_times=list(rests))
+        return sample
+
+    fresh = {}
+    try:
+        for st in settings:
+            v = sample_values(run(act.Sample(name, mass), L.env(*st)))
+            if not finite_values(v):
+                raise ValueError("non-finite activity")
+            fresh[st] = v
+    except Exception:   # noqa - reported by sample_check / the row sweep
+        acc.count("sample_histories_skipped_fresh_route_fails")
+        return
+
+    def report(sig, mode, s1, s2, expected, observed):
+        case = dict(kind="sample-history", formula=name, spec=[list(x) for x in spec], mode=mode,
+                    first=list(s1), second=list(s2), mass=mass, tier=tier)
+        acc.violation(sig, case, expected=expected, observed=observed,
+                      standalone=sample_history_snippet(name, mass, mode, s1, s2))
+        acc.outcome("sample-history:%s:VIOLATION" % mode)
+
+    def judge(mode, what, s1, s2, do):
+        if only is not None and only != (mode, tuple(s1), tuple(s2)):
+            return
+        acc.states += 1
+        acc.transitions += 1
+        acc.traces += 1
+        if not same_values(fresh[s1], fresh[s2]):
+            acc.nontrivial += 1
+        try:
+            problem = do()
+        except Exception as e:  # noqa
+            report("%s-raises-%s" % (what, type(e).__name__), mode, s1, s2, "the activities of a fresh sample",
+                   exc_text(e))
+            return
+        if problem is None:
+            acc.outcome("sample-history:%s:equal-to-fresh" % mode)
+        else:
+            report(problem[0], mode, s1, s2, problem[1], problem[2])
+
+    for s1 in settings:
+        for s2 in settings:
+            if s1 == s2:
+                continue
+
+            def env_reused():
+                env = L.env(*s1)
+                a = run(act.Sample(name, mass), env)
+                before = sample_values(a)
+                set_env(env, s1, s2)
+                b = sample_values(run(act.Sample(name, mass), env))
+                if not same_values(b, fresh[s2]):
+                    stale = stale_attributes(lambda h: same_values(b, fresh.get(h)), s1, s2)
+                    return ("sample-with-reused-environment-uses-stale-%s" % stale if stale else
+                            "sample-with-reused-environment-differs-from-fresh-environment",
+                            repr(describe(fresh[s2])), repr(describe(b)))
+                if not same_values(sample_values(a), before) or not same_values(before, fresh[s1]):
+                    return ("earlier-sample-result-altered-by-later-calculation", repr(describe(before)),
+                            repr(describe(sample_values(a))))
+                return None
+
+            def recalculated():
+                s = act.Sample(name, mass)
+                run(s, L.env(*s1), exposure=3 * HIST_EXPOSURE)
+                run(s, L.env(*s2), rests=REST[:2])
+                got = sample_values(s)
+                if not same_values(got, fresh[s2], n=2) or any(len(v) != 2 for v in got.values()):
+                    return ("recalculated-sample-differs-from-fresh-sample",
+                            repr(describe(dict((k, v[:2]) for k, v in fresh[s2].items()))), repr(describe(got)))
+                return None
+
+            judge("environment-reused", "sample-with-reused-environment", s1, s2, env_reused)
+            judge("sample-recalculated", "recalculated-sample", s1, s2, recalculated)
+
+    # a Formula object handed to two Samples comes back unaltered and gives the result of the formula string
+    st = settings[-1]
+
+    def formula_object():
+        f = pt.formula(name)
+        snap = lambda: (str(f), sorted((repr(k), v) for k, v in f.atoms.items()), f.density, repr(f.structure))
+        before = snap()
+        for again in (1, 2):
+            got = sample_values(run(act.Sample(f, mass), L.env(*st)))
+            if snap() != before:
+                return ("formula-argument-altered-by-sample", repr(before), repr(snap()))
+            if not same_values(got, fresh[st]):
+                return ("sample-from-formula-object-differs-from-sample-from-string", repr(describe(fresh[st])),
+                        repr(describe(got)))
+        return None
+
+    judge("formula-object-reused", "sample-from-formula-object", st, st, formula_object)
+
+
 # --------------------------------------------------------------------------------------- table identity
 def table_check(acc, L):
     """The isotopes carrying activation records are exactly those of the file."""
@@ -682,11 +1036,58 @@ def _shard80(job):
                                 sample_check(acc, L, name, spec, fluence, cd, fr, exposure, which)
             if len(acc.samples) < 2:
                 acc.sample(dict(sample=name, mass=SAMPLE_MASS, grid=g))
+    elif kind == "ions":
+        _, tier, zs = job
+        g = SAMPLE_GRID[tier]
+        for name, spec in ion_items(acc, L, zs):
+            for which in ("default", "NIST", "IAEA"):
+                for fluence in g["fluence"]:
+                    for cd in g["cd"]:
+                        for fr in g["fast"]:
+                            for exposure in g["exposure"]:
+                                sample_check(acc, L, name, spec, fluence, cd, fr, exposure, which)
+            sample_history_check(acc, L, name, spec, tier)
+            if len(acc.samples) < 1:
+                acc.sample(dict(sample=name, mass=SAMPLE_MASS, grid=g))
+    elif kind == "envhist":
+        _, tier, keys = job
+        for key in keys:
+            env_history_check(acc, L, tuple(key), tier)
+        if keys:
+            st = hist_settings(tier)
+            acc.sample(dict(history_of_one_environment=dict(
+                isotope=L.per_iso[tuple(keys[0])][0].isotope, settings=st, depth=HIST[tier]["depth"],
+                hand_over=TRANSFERS, used_before_hand_over=[True, False], exposure=HIST_EXPOSURE, mass=HIST_MASS,
+                rest=HIST_RESTS)))
+    elif kind == "samplehist":
+        _, tier, items = job
+        for name, spec in items:
+            sample_history_check(acc, L, name, spec, tier)
     elif kind == "table":
         table_check(acc, L)
     else:
         raise MachineryError("unknown job %r" % (kind,))
     return acc
+
+
+def ion_items(acc, L, zs):
+    """For every element with activation data and at least one charge state: the ion of the natural element
+    and the ion of its lightest isotope that has activation data (charge of smallest magnitude, + before -)."""
+    out = []
+    first = {}
+    for (Z, A) in sorted(L.per_iso):
+        first.setdefault(Z, A)
+    for Z in zs:
+        el = L.pt.elements[Z]
+        ions = tuple(getattr(el, "ions", ()))
+        if not ions:
+            acc.count("elements_without_charge_states")
+            continue
+        q = min(ions, key=lambda c: (abs(c), -c))
+        sym = el.symbol
+        out.append(("%s%s" % (sym, charge_text(q)), ((sym, None, 1, q),)))
+        out.append(("%s[%d]%s" % (sym, first[Z], charge_text(q)), ((sym, first[Z], 1, q),)))
+    return out
 
 
 def balanced(keys, weight, n):
@@ -710,6 +1111,9 @@ def run(ctx):
     items = [(symbols[Z], ((symbols[Z], None, 1),)) for Z in sorted(symbols)] + list(COMPOUNDS)
     items = rotate(items, ctx.seed)
     jobs += [("samples", ctx.tier, ch) for ch in chunks(items, 8 if ctx.quick else 16)]
+    jobs += [("ions", ctx.tier, ch) for ch in chunks(rotate(sorted(symbols), ctx.seed), 8 if ctx.quick else 16)]
+    jobs += [("samplehist", ctx.tier, ch) for ch in chunks(items, 4)]
+    jobs += [("envhist", ctx.tier, ks) for ks in balanced(keys, lambda k: len(per_iso[k]), 16 if ctx.quick else 32)]
     jobs.append(("table",))
     ctx.pmap(_shard, jobs)
     acc = ctx.acc
@@ -718,6 +1122,8 @@ def run(ctx):
                                              * len(MASS) * len(REST))
     acc.info["rows"] = len(rows)
     acc.info["sample_formulas"] = len(items)
+    acc.info["environment_settings_per_history"] = len(hist_settings(ctx.tier))
+    acc.info["environment_histories_per_isotope"] = len(env_histories(ctx.tier, hist_settings(ctx.tier)))
 
 
 # --------------------------------------------------------------------------------------- replay
@@ -735,6 +1141,16 @@ def _replay80(ctx, case):
             sweep_isotope(acc, L, (case["Z"], case["A"]), (1e5,), (1.0,), thresholds=False)
         else:
             table_check(acc, L)
+        return
+    if kind == "env-history":
+        only = (tuple(tuple(st) for st in case["path"]), case["used"], case["transfer"])
+        env_history_check(acc, L, (case["Z"], case["A"]), case.get("tier", "quick"), only=only)
+        return
+    if kind == "sample-history":
+        spec = [tuple(x) for x in case["spec"]]
+        sample_history_check(acc, L, case["formula"], spec, case.get("tier", "quick"),
+                             only=(case["mode"], tuple(case["first"]), tuple(case["second"])),
+                             mass=case.get("mass", SAMPLE_MASS))
         return
     if kind == "sample":
         spec = [tuple(s) for s in case["spec"]]
